@@ -196,7 +196,7 @@ func TestPropEveryStringOnce(t *testing.T) {
 			PluginSrc: func(t *rapid.T) string { return "plug" + template(t, "src", st) },
 			Anchors:   rapid.IntRange(0, 2).Draw(t, "anchors") == 0, Floats: true, Timestamps: true,
 			BigMaps: true, BigMapOneIn: 4, EmptyKey: true, MergeKeyStr: true, EmptyMatrix: true, UnknownSteps: true,
-			BothCommands: true, Signature: true, NoPipelineEnv: true, CacheDisabledKey: true,
+			BothCommands: true, Signature: true, NoPipelineEnv: true, CacheDisabledKey: true, OddSkip: true,
 		}
 		g := doc.NewG(t, cfg)
 		root := g.Pipeline()
